@@ -5,7 +5,7 @@ import os
 
 VERIF = os.path.dirname(os.path.dirname(os.path.abspath(__file__)))
 
-TRUST = ("rustc/Kani 0.68/CBMC 6.11/CaDiCaL, z3 4.8.12 (+cvc5 cross-check); std perf stubs (naive memchr, "
+TRUST = ("rustc/Kani 0.68/CBMC 6.11/CaDiCaL, z3 5.1 (python z3-solver of the tooling venv); std perf stubs (naive memchr, "
          "nondeterministic Unicode tables for non-ASCII, format! -> empty only on message-text sites); results are "
          "bounded: sizes/unwindings are listed per query in the evidence file; counterexamples are replayed against "
          "the real build (dev and release) before being reported")
@@ -22,9 +22,10 @@ CLAIMED = {
               "language (unknown tag, duplicate, misplaced, trailing or extra fields are rejected)."),
         design_ref="DESIGN.md §4 C01"),
     "C02": dict(
-        technique=TOK_TECH + "; field-level round trips by Kani/CBMC on the compiled field parsers",
+        technique=TOK_TECH + "; field level: source-level symbolic execution of parse and to_swift_string of 28 field types on symbolic texts (z3 strings), witnesses replayed on the real parsers",
         text=("Message level: token-level identity of parse∘serialise for all token lists up to N fields implies that re-parsing "
-              "the output yields the same slots and the same text; field level: Kani harnesses over symbolic contents."),
+              "the output yields the same slots and the same text; field level: parse(ser(parse(s))) = parse(s), serialisation a fixed "
+              "point and no input line dropped, for every text of up to 6 lines x 40 characters, for the 28 field types the solver decides."),
         design_ref="DESIGN.md §4 C02"),
     "C03": dict(
         technique=TOK_TECH + "; oracle: Glushkov automaton of an independent layout specification encoded in SMT",
@@ -48,20 +49,23 @@ CLAIMED = {
               "reference model of the rule says the rule is violated, and that nothing undocumented is reported."),
         design_ref="DESIGN.md §4 C04"),
     "C05": dict(
-        technique="Kani/CBMC bounded model checking of the compiled primitive validators and field kernels against byte-level reference predicates, all UTF-8 inputs up to the stated size",
+        technique="Kani/CBMC bounded model checking of the compiled primitive validators against byte-level reference predicates (all UTF-8 inputs up to the stated size) + source-level symbolic execution of 26 single-line field parsers against the format documented in their doc comment (compiled to a z3 regular expression)",
         text=("Solver verdict over every UTF-8 string up to the stated length for the character-class, length, BIC and currency "
-              "validators (accept iff in the documented class, no panic). Kernel only: the 114 field parsers are covered through "
-              "these primitives and the date-bearing field harnesses."),
+              "validators (accept iff in the documented class, no panic); for 26 field types, over every ASCII string up to 60 characters: "
+              "accepted implies in the documented format (recorded leniencies excluded by their tolerated language). The other field types "
+              "and the reject-inside-format direction are outside the claim."),
         design_ref="DESIGN.md §4 C05"),
     "C06": dict(
-        technique="Kani/CBMC over all 26^3 currency codes (precision table vs ISO 4217 reference) and all short strings (currency shape, commodity codes)",
-        text=("Kernel only: the currency precision table and currency validators are decided exhaustively by the solver; the "
-              "float parsing / formatting pipeline is not reachable by either engine and is stated as outside the claim."),
+        technique="Kani/CBMC over all 26^3 currency codes (precision table vs ISO 4217 reference) and all short strings (currency shape, commodity codes) + source-level symbolic execution of parse_amount with str::parse::<f64> replaced by its documented grammar",
+        text=("The currency precision table and currency validators are decided exhaustively; every amount text parse_amount accepts "
+              "(up to 40 characters) is digits with at most one decimal separator. The numeric value (f64 parsing / formatting, "
+              "value preservation, decimal-count check) is outside the claim."),
         design_ref="DESIGN.md §4 C06"),
     "C07": dict(
-        technique="Kani/CBMC panic, overflow and unwinding obligations on the leaf parsers over all UTF-8 inputs up to the stated size + loop-progress obligations of all 30 layout functions (source-level symbolic execution, z3)",
+        technique="Kani/CBMC panic, overflow and unwinding obligations on the leaf parsers over all UTF-8 inputs up to the stated size + loop-progress obligations of all 30 layout functions, slice/unwrap panic obligations of 39 field parsers and unwinding assertions of extract_block (source-level symbolic execution, z3)",
         text=("No panic and bounded loops for every input up to the stated sizes on date/time, character-class, BIC, currency, header and "
-              "tokeniser kernels; every loop of every parse_from_block4 consumes a token per iteration (no hang)."),
+              "tokeniser kernels; every loop of every parse_from_block4 consumes a token per iteration (no hang); no out-of-range slice or "
+              "unwrap on None in 39 single-line field parsers (ASCII input up to 60 characters); extract_block terminates on five message templates."),
         design_ref="DESIGN.md §4 C07"),
     "C08": dict(
         technique="source-level symbolic execution of the custom serde codec modules (z3 strings/ints, chrono model) for all dates 1950-2049 and all clock times",
@@ -69,9 +73,11 @@ CLAIMED = {
               "plugin paths are stated as outside the claim."),
         design_ref="DESIGN.md §4 C08"),
     "C10": dict(
-        technique="Kani/CBMC on BasicHeader/ApplicationHeader::parse (components = slices at documented offsets, wrong length/direction rejected, no panic) + source-level symbolic execution of UserHeader/Trailer Display (every documented tag held is written)",
-        text=("Header parsing decided for all inputs of the fixed layouts' lengths; block 3/5 serialisation decided for every subset of "
-              "present tags. Block extraction and message assembly are outside the claim."),
+        technique="Kani/CBMC on BasicHeader/ApplicationHeader::parse (components = slices at documented offsets, wrong length/direction rejected, no panic) + source-level symbolic execution of the four headers' parse and Display and of extract_block / find_matching_brace on structured texts",
+        text=("Header parsing decided for all inputs of the fixed layouts' lengths; every documented block-3/5 tag held is written; "
+              "Display(parse(s)) = s for blocks 1 and 2 and for blocks 3 / 5 holding one recognised tag in a documented shape; "
+              "extract_block returns exactly the text between a block's delimiters on five message templates with symbolic contents. "
+              "Message assembly (to_mt_message) is outside the claim."),
         design_ref="DESIGN.md §4 C10"),
     "C11": dict(
         technique="Kani/CBMC of the compiled date/time parsers and every date-bearing field parser vs a reference calendar (all six-digit strings) + source-level symbolic execution of the serialisers and JSON codecs (all dates 1950-2049)",
@@ -80,19 +86,23 @@ CLAIMED = {
               "for to_swift_string (digits reproduced) and the JSON codecs (same meaning in JSON)."),
         design_ref="DESIGN.md §4 C11"),
     "C12": dict(
-        technique="dispatch tables extracted from source (syn) and decided by z3 for all 1000 three-digit codes",
+        technique="dispatch tables extracted from source (syn) and decided by z3 for all 1000 three-digit codes + source-level symbolic execution of the validate plugin on every ParseError variant; witnesses replayed through the real plugin handlers",
         text=("Every dispatch table of the five entry points routes each code 000-999 to the type whose message_type() is that code, "
-              "unknown codes to 'unsupported'; typed parse checks the type (T03) before parsing block 4. Closed domain."),
+              "unknown codes to 'unsupported'; typed parse checks the type (T03) before parsing block 4; validate_mt never reports a "
+              "message that parse_auto rejects (unsupported type included) as valid."),
         design_ref="DESIGN.md §4 C12"),
     "C13": dict(
-        technique="source-level symbolic execution of validate_network_rules with a symbolic stop_on_first_error flag; prefix / non-emptiness relations decided by z3; replayed natively",
-        text=("For every message instance (K occurrences) of 26 types: the stop-on-first list is non-empty iff the full list is, and "
-              "its first positions equal the full list's; re-validation and non-mutation are confirmed on every replayed witness."),
+        technique="source-level symbolic execution of validate_network_rules with a symbolic stop_on_first_error flag and symbolic HashSet iteration orders, and of the three validation wrappers over an uninterpreted body result; decided by z3; replayed natively (typed API, parse_auto, plugin handler; 48 repeated validations)",
+        text=("For every message instance (K occurrences) of 26 types: the stop-on-first list is non-empty iff the full list is, "
+              "its first positions equal the full list's, and a second validation constructs the same errors whatever order the hash "
+              "sets are iterated in; SwiftMessage::validate, ParsedSwiftMessage::validate and the validate plugin report exactly the "
+              "body's list for each of the 30 types."),
         design_ref="DESIGN.md §4 C13"),
     "C16": dict(
-        technique="Kani/CBMC on the tokeniser's tag normalisation / base-tag helpers (all short strings) and, in the thorough tier, the consumption tracker and parse_block4_fields on tiny texts",
-        text=("Bounded kernel: normalize_field_tag and extract_base_tag decided for all inputs up to 4-5 bytes against the documented rule; "
-              "tracker and tokeniser only in the thorough tier."),
+        technique="source-level symbolic execution of parse_block4_fields / normalize_field_tag on structured block-4 texts with symbolic field contents (z3) + Kani/CBMC on the tag normalisation / base-tag helpers (all short strings) and, in the thorough tier, the consumption tracker and parse_block4_fields on tiny texts",
+        text=("Five block-4 templates with symbolic contents: every field appears exactly once under its tag with its content and the "
+              "stamps increase; normalize_field_tag and extract_base_tag decided for all inputs up to 4-5 bytes against the documented rule; "
+              "consumption tracker only in the thorough tier; sequence splitting is outside the claim."),
         design_ref="DESIGN.md §4 C16"),
     "C17": dict(
         technique="source-level symbolic execution of the classification predicates and the plugin's method selection on symbolic field-72 lines (z3 strings) and finite MUR/119 candidate sets; replayed natively",
